@@ -28,8 +28,13 @@ def event_sends(body):
 
 
 def sender_guard(g):
-  n = guard_field_names(g.body, g)
-  return 'event_sender' in n
+  """`if let Some(sender) = <..>.event_sender`: the tested Option is the event_sender field itself — not the result of a call on it
+  (a `.filter(..)` would let a condition of its own decide whether the event is sent)"""
+  import re as _re
+  from ..intervals import fmt_desc
+  a = g.atom() if callable(g.atom) else g.atom
+  d = a if isinstance(a, str) else fmt_desc(a)
+  return bool(_re.match(r'^discr\(([A-Za-z_0-9]+\.)+event_sender\)$', d))
 
 
 def names(body, op):
